@@ -297,6 +297,9 @@ class Slicer:
             for sub in _walk_expr(ex):
                 if isinstance(sub, ast.Call):
                     res["calls"].add(sub)
+                    for rexpr, rnode in getattr(self.g, "inline_returns", {}).get(id(sub), []):
+                        if rexpr is not None:
+                            work.append((rexpr, rnode))
                 elif isinstance(sub, ast.Constant):
                     res["consts"].add(sub.value if isinstance(sub.value, (str, int, float, bool, bytes, type(None))) else repr(sub.value))
             for nm in names_in(ex):
